@@ -294,6 +294,13 @@ func runCheck(sp *spec, tier, params string, jobs int, budget time.Duration, see
 					if r.EngineError != "" {
 						engineErrs = append(engineErrs, r.EngineError)
 					}
+					// the worker enumerates the scenarios itself: its list must be the one this process scheduled
+					for k, name := range r.Scenarios {
+						if k < len(chunks[ci].idx) && name != scen[chunks[ci].idx[k]].Name {
+							engineErrs = append(engineErrs, fmt.Sprintf("scenario list is not deterministic: index %d is %q here and %q in the worker", chunks[ci].idx[k], scen[chunks[ci].idx[k]].Name, name))
+							break
+						}
+					}
 					results = append(results, r)
 				}
 				mu.Unlock()
